@@ -9,6 +9,6 @@ trap 'git -C /repo checkout -- . ; git -C /repo clean -fdq -e target' EXIT
 cd /verif
 for p in "$@"; do
   out=$(./check "$p" --tier "$TIER" 2>&1); rc=$?
-  echo "== $p rc=$rc :: $(echo "$out" | grep -c '^VIOLATION') violation lines :: $(echo "$out" | grep -E '^  [A-Z-]+:' | sed -E 's/^  ([A-Z-]+):.*/\1/' | sort | uniq -c | tr '\n' ' ')"
-  echo "$out" | grep -E '^  [A-Z-]+:|MACHINERY' | head -3 | cut -c1-330
+  echo "== $p rc=$rc :: $(echo "$out" | grep -c '^VIOLATION') violation lines :: $(echo "$out" | grep -E '^  [A-Z0-9-]+:' | sed -E 's/^  ([A-Z0-9-]+):.*/\1/' | sort | uniq -c | tr '\n' ' ')"
+  echo "$out" | grep -E '^  [A-Z0-9-]+:|MACHINERY' | head -3 | cut -c1-330
 done
